@@ -5,7 +5,7 @@ cd /verif
 PAT="${1:-.}"
 for d in seeded/C??-?; do
   id=$(basename $d); prop=${id%-*}
-  echo "$id" | grep -Eq "$PAT" || continue
+  echo "$id" | grep -Eq -e "$PAT" || continue
   [ -f checks/$(echo $prop | tr C c).py ] || { echo "$id: no check"; continue; }
   (cd /repo && git diff --quiet) || { echo "/repo not clean"; exit 9; }
   git -C /repo apply /verif/$d/patch.diff || { echo "$id: patch does not apply"; continue; }
